@@ -5,7 +5,8 @@ For one scenario, hash seed and PRNG seed, 2-3 *fresh interpreters* (ASLR off, s
 even address-dependent behaviour replays exactly) run the user's program, each under a
 different *perturbation schedule* of everything the property says must not matter:
 heap layout (pre-allocated ballast shifts every later id()/address), garbage-collector
-mode, import order of isla submodules, wall-clock epoch, cwd / HOME / COLUMNS / argv.
+mode, import order of isla submodules, wall-clock epoch, clock speed and stalls between
+solve() calls (no timeout is configured), cwd / HOME / COLUMNS / argv.
 The same deterministic Z3 budget and the same (optional) Z3 unknown schedule apply to
 all children -- a Z3 timeout is part of the environment both runs share; what is
 compared is whether ISLa's reaction to it is reproducible.
@@ -43,6 +44,8 @@ def gen_perturbation(rng: random.Random, idx: int) -> Dict[str, Any]:
         "cwd": None if idx == 0 else f"/tmp/islarepro_{rng.randrange(1 << 30)}",
         "env": {} if idx == 0 else {"COLUMNS": str(rng.choice([20, 80, 200])), "HOME": rng.choice(["/tmp", "/nonexistent", "/"]), "LANG": rng.choice(["C", "C.UTF-8"]), "TZ": rng.choice(["UTC", "Asia/Tokyo"])},
         "argv": [] if idx == 0 else [f"--x{rng.randrange(100)}"] * rng.randint(0, 3),
+        "clock_rate": 0.0 if idx == 0 else rng.choice([0.0, 1.1e-6, 1.1e-6, 1.1e-4, 1.1e-3]),
+        "stalls": {} if idx == 0 or rng.random() < 0.4 else {str(rng.randrange(12)): rng.choice([3.0, 30.0, 61.0, 3600.0, 1e6]) for _ in range(rng.choice([1, 1, 2, 3]))},
     }
 
 
@@ -154,7 +157,7 @@ def simplifications(plan: Dict[str, Any], violation: Dict[str, Any]):
         q = json.loads(json.dumps(plan))
         q["ops"] = [plan["ops"][0], plan["ops"][i]]
         yield q
-    base = {"heap_objects": 0, "gc": "default", "import_order": [], "cwd": None, "env": {}, "argv": [], "epoch": plan["ops"][0]["epoch"]}
+    base = {"heap_objects": 0, "gc": "default", "import_order": [], "cwd": None, "env": {}, "argv": [], "epoch": plan["ops"][0]["epoch"], "clock_rate": 0.0, "stalls": {}}
     j = min(i, len(plan["ops"]) - 1)
     for key, val in base.items():
         if plan["ops"][j].get(key) != val:
